@@ -339,6 +339,23 @@ theorem modeKeeper_emitPairs : ∀ (b : Bytes), ModeKeeper (emitPairs b)
     unfold emitPairs
     exact modeKeeper_seq (modeKeeper_emitU16 _) (modeKeeper_emitPairs rest)
 
+theorem modeKeeper_emitTypeSet (ts : TypeSet) : ModeKeeper (emitTypeSet ts) := by
+  unfold emitTypeSet
+  cases ts.orig with
+  | some bs => exact modeKeeper_emitSlice bs
+  | none =>
+    refine modeKeeper_seqAll _ ?_
+    intro f hf
+    simp only [List.mem_map] at hf
+    obtain ⟨wb, _, rfl⟩ := hf
+    refine modeKeeper_seqAll _ ?_
+    intro g hg
+    simp only [List.mem_append, List.mem_cons, List.not_mem_nil, or_false, List.mem_map] at hg
+    rcases hg with (rfl | rfl) | ⟨b, _, rfl⟩
+    · exact modeKeeper_emitU8 _
+    · exact modeKeeper_emitU8 _
+    · exact modeKeeper_emitU8 _
+
 theorem modeKeeper_emitRData (t : Nat) (d : RData) (hp : d.proved = true) : ModeKeeper (emitRData t d) := by
   cases d <;> first | (simp [RData.proved] at hp; done) | skip
   all_goals unfold emitRData
@@ -418,6 +435,34 @@ theorem modeKeeper_emitRData (t : Nat) (d : RData) (hp : d.proved = true) : Mode
     · exact modeKeeper_emitU16 _
     · exact eo _ _ (modeKeeper_emitU16 _)
     · exact modeKeeper_emitSlice _
+  case nsec next ts =>
+    refine modeKeeper_withRdataBehavior (modeKeeper_seqAll _ ?_) _
+    intro f hf
+    simp only [List.mem_cons, List.not_mem_nil, or_false] at hf
+    rcases hf with rfl | rfl
+    · exact modeKeeper_emitName _
+    · exact modeKeeper_emitTypeSet _
+  case nsec3 oo iter salt hash b32 ts =>
+    refine modeKeeper_seqAll _ ?_
+    intro f hf
+    simp only [List.mem_cons, List.not_mem_nil, or_false] at hf
+    rcases hf with rfl | rfl | rfl | rfl | rfl | rfl | rfl | rfl
+    · exact modeKeeper_emitU8 _
+    · exact modeKeeper_emitU8 _
+    · exact modeKeeper_emitU16 _
+    · exact modeKeeper_emitU8 _
+    · exact modeKeeper_emitSlice _
+    · exact modeKeeper_emitU8 _
+    · exact modeKeeper_emitSlice _
+    · exact modeKeeper_emitTypeSet _
+  case csync serial flags ts =>
+    refine modeKeeper_seqAll _ ?_
+    intro f hf
+    simp only [List.mem_cons, List.not_mem_nil, or_false] at hf
+    rcases hf with rfl | rfl | rfl
+    · exact modeKeeper_emitU32 _
+    · exact modeKeeper_emitU16 _
+    · exact modeKeeper_emitTypeSet _
   case naptr order pref flags services regexp n =>
     refine modeKeeper_withRdataBehavior (modeKeeper_seqAll _ ?_) _
     intro f hf
